@@ -499,6 +499,48 @@ theorem view_sorted (it : It σ) (h : it.WF) (hs : ∀ s ∈ it.leaves, (LawfulS
     · rw [← da]; exact iha wa (fun s h => by rw [da]; exact hs s (Or.inl h))
     · rw [← db]; exact ihb wb (fun s h => by rw [db]; exact hs s (Or.inr h))
 
+/-! ## the sources of a tree after a direction switch -/
+
+theorem WF_leaves (it : It σ) (h : it.WF) : ∀ s ∈ it.leaves, LawfulSource.wf s := by
+  induction it with
+  | leaf s => intro s' hs; simp [leaves] at hs; subst hs; exact h
+  | mix m a b iha ihb =>
+    intro s hs
+    simp only [leaves, List.mem_append] at hs
+    rcases hs with hs | hs
+    · exact iha h.1 s hs
+    · exact ihb h.2.1 s hs
+
+theorem release_leaves (it : It σ) : it.release.leaves = it.leaves.map Source.release := by
+  induction it with
+  | leaf s => simp [release, leaves]
+  | mix m a b iha ihb => simp [release, leaves, iha, ihb]
+
+theorem map_view_release (l : List σ) (h : ∀ s ∈ l, LawfulSource.wf s) :
+    (l.map Source.release).map LawfulSource.view = l.map LawfulSource.view := by
+  induction l with
+  | nil => rfl
+  | cons x xs ih =>
+    simp only [List.map_cons]
+    rw [(LawfulSource.release_spec x (h x (by simp))).1, ih (fun s hs => h s (by simp [hs]))]
+
+/-- after a real change of direction the streams of the tree's sources are the streams of the old tree's sources, each
+switched (`Mixer.SetBackward` also releases them — possibly several times in a nested tree — which changes no stream) -/
+theorem setBackward_leaves_views (bk : Bool) (it : It σ) (h : it.WF) (hd : it.dir ≠ bk) :
+    (it.setBackward bk).leaves.map LawfulSource.view =
+      it.leaves.map (fun s => LawfulSource.view (Source.setBackward bk s)) := by
+  induction it with
+  | leaf s => simp [setBackward, leaves]
+  | mix m a b iha ihb =>
+    obtain ⟨wa, wb, da, db, _⟩ := h
+    have hb : m.bkwd ≠ bk := hd
+    have ha' := iha wa (by rw [da]; exact hb)
+    have hb' := ihb wb (by rw [db]; exact hb)
+    have wa' := WF_leaves _ (setBackward_spec bk a wa).1
+    have wb' := WF_leaves _ (setBackward_spec bk b wb).1
+    simp only [setBackward, hb, if_false, release, leaves, List.map_append, release_leaves]
+    rw [map_view_release _ wa', map_view_release _ wb', ha', hb']
+
 end It
 
 /-! ## the in-memory leaf is a lawful source -/
